@@ -198,6 +198,8 @@ class ZeroLinearOperator(LinearOperator):
         self: Float[LinearOperator, "*batch M N"],
         other: Union[float, Float[Tensor, "*batch2 M N"], Float[LinearOperator, "*batch2 M N"]],
     ) -> Float[LinearOperator, "... M N"]:
+        if not (torch.is_tensor(other) or isinstance(other, LinearOperator)):
+            return self  # a python scalar
         shape = torch.broadcast_shapes(self.shape, other.shape)
         return self.__class__(*shape, dtype=self._dtype, device=self._device)
 
